@@ -705,9 +705,286 @@ Section ExecSelect.
   Proof.
     intros s rows out Hp Hobj Hag H. rewrite exec_select_spec in H by assumption.
     split; [eapply mapM_length; exact H|].
-    apply mapM_forall2 in H. eapply Forall2_impl; [|exact H].
-    intros r o Hr. cbn beta in Hr. destruct r; cbn [spec_row] in Hr; try discriminate Hr.
+    apply mapM_forall2 in H. clear Hobj Hag.
+    induction H as [|r o rs os Hr _ IH]; [constructor|]. constructor; [|exact IH].
+    destruct r; cbn [spec_row] in Hr; try discriminate Hr.
     destruct (project den (s_items s) kvs) as [okv| | |] eqn:Hpj; cbn [bind] in Hr; try discriminate Hr.
     inversion Hr. eauto.
   Qed.
 End ExecSelect.
+
+Arguments per_row s : clear implicits.
+Arguments spec_row den items cur : clear implicits.
+
+(* ------------------------------------------------------------------ *)
+(* keys of SelectExpr's result for ANY select list: the engine only ever  *)
+(* writes an item's name or (for `*`) a key of the current row            *)
+(* ------------------------------------------------------------------ *)
+
+Section KeysAny.
+  Variable Q : Type.
+  Variable E : env Q.
+
+  Lemma select_expr_keys_sub : forall items cur acc o,
+    select_expr E cur items acc = Ok o ->
+    forall k, In k (keys o) -> In k (keys acc) \/ In k (select_keys items cur).
+  Proof.
+    induction items as [|it rest IH]; intros cur acc o H k Hk; cbn [select_expr] in H.
+    - inversion H. subst o. left. exact Hk.
+    - cbn [select_keys flat_map]. rewrite in_app_iff. destruct it as [|e name].
+      + destruct (IH _ _ _ H k Hk) as [Ha|Hr]; [|auto].
+        apply keys_obj_merge in Ha. cbn [item_names]. tauto.
+      + destruct (eval E cur e) as [x| | |]; cbn [bind] in H; try discriminate H.
+        assert (Hset : forall v, select_expr E cur rest (obj_set name v acc) = Ok o ->
+                       In k (keys acc) \/ In k (item_names cur (IExpr e name)) \/ In k (select_keys rest cur)).
+        { intros v Hv. destruct (IH _ _ _ Hv k Hk) as [Ha|Hr]; [|auto].
+          apply keys_obj_set in Ha. cbn [item_names In]. destruct Ha as [->|Ha]; auto. }
+        destruct x as [v0|p0|s0|o0| |l0].
+        1-4, 6: (match type of H with context [value_of ?c ?y] =>
+                   destruct (value_of c y) as [v| | |]; cbn [bind] in H; try discriminate H end;
+                 apply Hset in H; tauto).
+        destruct (IH _ _ _ H k Hk); auto.
+  Qed.
+End KeysAny.
+
+Lemma Forall2_nth : forall {A B} (R : A -> B -> Prop) l1 l2 i a b,
+  Forall2 R l1 l2 -> nth_error l1 i = Some a -> nth_error l2 i = Some b -> R a b.
+Proof.
+  intros A B R l1 l2 i a b H. revert i. induction H as [|x y r1 r2 Hxy _ IH]; intros i Ha Hb.
+  - destruct i; discriminate Ha.
+  - destruct i; cbn [nth_error] in *.
+    + inversion Ha. inversion Hb. subst. exact Hxy.
+    + eapply IH; eassumption.
+Qed.
+
+Theorem exec_select_keys_any : forall (E : env stmt) s rows out,
+  per_row s = true -> exec_select E s rows = Ok out ->
+  forall i kv o, nth_error rows i = Some (VObj kv) -> nth_error out i = Some o ->
+  exists okv, o = VObj okv /\
+    forall k, In k (keys okv) ->
+      (exists e, In (IExpr e k) (s_items s)) \/ (In IStar (s_items s) /\ In k (keys kv)).
+Proof.
+  intros E s rows out Hp H i kv o Hr Ho. rewrite exec_select_per_row in H by exact Hp.
+  apply mapM_forall2 in H. pose proof (Forall2_nth _ _ _ _ _ _ H Hr Ho) as Hs.
+  cbn [select_row] in Hs.
+  destruct (select_expr E kv (s_items s) []) as [okv| | |] eqn:Hse; cbn [bind] in Hs; try discriminate Hs.
+  inversion Hs. exists okv. split; [reflexivity|]. intros k Hk.
+  destruct (select_expr_keys_sub _ _ _ _ _ _ Hse k Hk) as [[]|Hin].
+  apply in_select_keys in Hin. exact Hin.
+Qed.
+
+(* ------------------------------------------------------------------ *)
+(* the two instances                                                     *)
+(* ------------------------------------------------------------------ *)
+
+Lemma c02_items_in : forall {Q} (items : list (sel_item Q)) e name,
+  c02_items items = true -> In (IExpr e name) items -> is_c02 e = true.
+Proof.
+  intros Q items e name H Hin. unfold c02_items in H. rewrite forallb_forall in H.
+  apply (H _ Hin).
+Qed.
+
+Lemma c02x_items_in : forall {Q} (items : list (sel_item Q)) e name,
+  c02x_items items = true -> In (IExpr e name) items -> is_c02x e = true.
+Proof.
+  intros Q items e name H Hin. unfold c02x_items in H. rewrite forallb_forall in H.
+  apply (H _ Hin).
+Qed.
+
+Section Instances.
+  Variable E : env stmt.
+  Hypothesis Hhard : e_hard E = false.
+
+  Lemma c02_items_agree : forall csem items kv,
+    c02_items items = true ->
+    (forall c, In c (items_conds items) -> eval_cond E kv (Some c) = csem kv c) ->
+    items_agree E (sem_expr csem) items kv.
+  Proof.
+    intros csem items kv Hg Hc e name Hin. pose proof (c02_items_in _ _ _ Hg Hin) as He. split.
+    - apply is_c02_omit_free, He.
+    - apply value_correct; [exact Hhard|exact He|].
+      intros c Hcin. apply Hc. unfold items_conds. apply in_flat_map.
+      exists (IExpr e name). split; [exact Hin|exact Hcin].
+  Qed.
+
+  Lemma c02x_items_agree : forall items kv,
+    c02x_items items = true -> items_agree E sem_x items kv.
+  Proof.
+    intros items kv Hg e name Hin. pose proof (c02x_items_in _ _ _ Hg Hin) as He. split.
+    - apply is_c02x_omit_free, He.
+    - apply value_correct_x; [exact Hhard|exact He].
+  Qed.
+
+  Lemma agree_per_row : forall den s kv,
+    items_agree E den (s_items s) kv -> per_row s = true.
+  Proof.
+    intros den s kv H. unfold per_row. rewrite c02_not_all_aggregate.
+    - rewrite andb_false_r. reflexivity.
+    - intros e name Hin. apply (H e name Hin).
+  Qed.
+
+  Lemma c02_per_row : forall s, c02_items (s_items s) = true -> per_row s = true.
+  Proof.
+    intros s Hg. unfold per_row. rewrite c02_not_all_aggregate.
+    - rewrite andb_false_r. reflexivity.
+    - intros e name Hin. apply is_c02_omit_free. eapply c02_items_in; eassumption.
+  Qed.
+
+  Lemma c02x_per_row : forall s, c02x_items (s_items s) = true -> per_row s = true.
+  Proof.
+    intros s Hg. unfold per_row. rewrite c02_not_all_aggregate.
+    - rewrite andb_false_r. reflexivity.
+    - intros e name Hin. apply is_c02x_omit_free. eapply c02x_items_in; eassumption.
+  Qed.
+
+  (* what one output row looks like, relative to a projection function of the specification *)
+  Definition row_ok (pj : srow -> res (list (string * value))) (names : srow -> list string)
+             (r o : value) : Prop :=
+    exists kv okv, r = VObj kv /\ pj kv = Ok okv /\ o = VObj okv /\
+                   NoDup (keys okv) /\ forall k, In k (keys okv) <-> In k (names kv).
+
+  Lemma shape_row_ok : forall den items rows out,
+    Forall2 (fun r o => exists kv okv, r = VObj kv /\ project den items kv = Ok okv /\ o = VObj okv)
+            rows out ->
+    Forall2 (row_ok (project den items) (@select_keys stmt items)) rows out.
+  Proof.
+    intros den items rows out H. induction H as [|r o rs os Hr _ IH]; constructor; [|exact IH].
+    destruct Hr as [kv [okv [-> [Hp ->]]]]. exists kv, okv.
+    repeat split; try assumption.
+    - eapply project_nodup; exact Hp.
+    - apply (project_keys _ _ _ _ _ Hp).
+    - apply (project_keys _ _ _ _ _ Hp).
+  Qed.
+
+  Theorem row_shape : forall csem s rows out,
+    c02_items (s_items s) = true -> forallb is_obj rows = true ->
+    (forall kv c, In (VObj kv) rows -> In c (items_conds (s_items s)) ->
+                  eval_cond E kv (Some c) = csem kv c) ->
+    exec_select E s rows = Ok out ->
+    List.length out = List.length rows /\
+    Forall2 (row_ok (sem_project csem (s_items s)) (select_keys (s_items s))) rows out.
+  Proof.
+    intros csem s rows out Hg Hobj Hc H.
+    destruct (exec_select_shape E (sem_expr csem) s rows out) as [Hlen Hf]; try assumption.
+    - apply c02_per_row, Hg.
+    - intros kv Hin. apply c02_items_agree; [exact Hg|]. intros c Hcin. apply Hc; assumption.
+    - split; [exact Hlen|]. apply shape_row_ok. exact Hf.
+  Qed.
+
+  Theorem row_shape_x : forall s rows out,
+    c02x_items (s_items s) = true -> forallb is_obj rows = true ->
+    exec_select E s rows = Ok out ->
+    List.length out = List.length rows /\
+    Forall2 (row_ok (sem_project_x (s_items s)) (select_keys (s_items s))) rows out.
+  Proof.
+    intros s rows out Hg Hobj H.
+    destruct (exec_select_shape E sem_x s rows out) as [Hlen Hf]; try assumption.
+    - apply c02x_per_row, Hg.
+    - intros kv Hin. apply c02x_items_agree. exact Hg.
+    - split; [exact Hlen|]. apply shape_row_ok. exact Hf.
+  Qed.
+
+  (* the model and the specification also fail together *)
+  Theorem exec_select_eq_x : forall s rows,
+    c02x_items (s_items s) = true -> forallb is_obj rows = true ->
+    exec_select E s rows = mapM (spec_row sem_x (s_items s)) rows.
+  Proof.
+    intros s rows Hg Hobj. apply exec_select_spec; [apply c02x_per_row, Hg|exact Hobj|].
+    intros kv Hin. apply c02x_items_agree. exact Hg.
+  Qed.
+End Instances.
+
+(* in the closed grammar the output at a position does not depend on the environment either: two
+   runs over different tables (and different query data) that have the same row somewhere produce
+   the same output object for it *)
+Theorem locality_x : forall E1 E2 s l1 l2 l1' l2' r out1 out2,
+  e_hard E1 = false -> e_hard E2 = false -> c02x_items (s_items s) = true ->
+  exec_select E1 s (l1 ++ r :: l2) = Ok out1 ->
+  exec_select E2 s (l1' ++ r :: l2') = Ok out2 ->
+  exists o, nth_error out1 (List.length l1) = Some o /\ nth_error out2 (List.length l1') = Some o.
+Proof.
+  intros E1 E2 s l1 l2 l1' l2' r out1 out2 H1 H2 Hg He1 He2.
+  pose proof (c02x_per_row s Hg) as Hp.
+  destruct (exec_select_local E1 s l1 r l2 out1 Hp He1) as [o1 [Hn1 Hs1]].
+  destruct (exec_select_local E2 s l1' r l2' out2 Hp He2) as [o2 [Hn2 Hs2]].
+  exists o1. split; [exact Hn1|]. rewrite Hn2. f_equal.
+  destruct r as [| | | |l|kv].
+  1-4: rewrite exec_select_per_row in Hs1 by exact Hp; discriminate Hs1.
+  - rewrite exec_select_per_row in Hs1, Hs2 by exact Hp. cbn in Hs1, Hs2. congruence.
+  - rewrite (exec_select_eq_x E1 H1) in Hs1 by (auto; reflexivity).
+    rewrite (exec_select_eq_x E2 H2) in Hs2 by (auto; reflexivity). congruence.
+Qed.
+
+(* ------------------------------------------------------------------ *)
+(* NULL rules, at the level of the evaluator (no grammar restriction)    *)
+(* ------------------------------------------------------------------ *)
+
+Section Null.
+  Variable Q : Type.
+  Variable E : env Q.
+
+  (* a reference whose first key is missing from the row is NULL *)
+  Lemma null_missing_key : forall cur k rest,
+    e_hard E = false -> lookup k cur = None -> ev E cur (ECol (k :: rest)) = Ok VNull.
+  Proof.
+    intros cur k rest Hh Hl. rewrite ev_col by exact Hh. rewrite <- reader_path_get.
+    apply reader_missing, Hl.
+  Qed.
+
+  (* deeper: the path reaches an object that lacks the next key *)
+  Lemma null_missing_nested : forall cur k1 k2 rest kvs,
+    e_hard E = false -> lookup k1 cur = Some (VObj kvs) -> lookup k2 kvs = None ->
+    ev E cur (ECol (k1 :: k2 :: rest)) = Ok VNull.
+  Proof.
+    intros cur k1 k2 rest kvs Hh H1 H2. rewrite ev_col by exact Hh. rewrite <- reader_path_get.
+    rewrite (reader_present _ _ _ _ H1). apply reader_missing, H2.
+  Qed.
+
+  (* NULL left operand: the raw result is the nil *float64, which ValueOf turns into NULL *)
+  Lemma null_bin_left : forall cur op a b,
+    ev E cur a = Ok VNull ->
+    eval E cur (EBin op a b) = Ok (RNumPtr None) /\ ev E cur (EBin op a b) = Ok VNull.
+  Proof.
+    intros cur op a b Ha. unfold ev in *. cbn [eval].
+    destruct (eval E cur a) as [ra| | |]; cbn [bind] in *; try discriminate Ha.
+    rewrite Ha. cbn [bind]. split; reflexivity.
+  Qed.
+
+  Lemma null_bin_right : forall cur op a b x,
+    ev E cur a = Ok (VNum x) -> ev E cur b = Ok VNull ->
+    eval E cur (EBin op a b) = Ok (RNumPtr None) /\ ev E cur (EBin op a b) = Ok VNull.
+  Proof.
+    intros cur op a b x Ha Hb. unfold ev in *. cbn [eval].
+    destruct (eval E cur a) as [ra| | |]; cbn [bind] in *; try discriminate Ha.
+    rewrite Ha. cbn [bind as_num].
+    destruct (eval E cur b) as [rb| | |]; cbn [bind] in *; try discriminate Hb.
+    rewrite Hb. cbn [bind]. split; reflexivity.
+  Qed.
+
+  (* a unary operator on NULL is an error *)
+  Lemma null_un : forall cur op a, ev E cur a = Ok VNull -> ev E cur (EUn op a) = Err.
+  Proof. intros cur op a Ha. rewrite ev_un, Ha. destruct op; reflexivity. Qed.
+End Null.
+
+(* the environments the pipeline builds never set the join-only option *)
+Lemma mk_env_hard : forall rec call join ctx s filtered,
+  e_hard (mk_env rec call join ctx s filtered) = false.
+Proof. reflexivity. Qed.
+
+(* later bindings of a name overwrite earlier ones; with unique source keys `*` contributes the
+   source row's own values *)
+Lemma project_later_wins : forall {Q} (den : srow -> expr Q -> res value) items r o,
+  project den items r = Ok o ->
+  exists bs, bindings den items r = Ok bs /\ map fst bs = select_keys items r /\
+             forall k, lookup k o = lookup k (rev bs).
+Proof.
+  intros Q den items r o H. destruct (project_lookup _ den _ _ _ H) as [bs [Hb Hl]].
+  exists bs. repeat split; try assumption. eapply bindings_names. exact Hb.
+Qed.
+
+Lemma project_star : forall {Q} (den : srow -> expr Q -> res value) r k,
+  NoDup (keys r) -> exists o, project den [IStar] r = Ok o /\ lookup k o = lookup k r.
+Proof.
+  intros Q den r k Hnd. unfold project. cbn [bindings item_bindings bind]. rewrite app_nil_r.
+  eexists. split; [reflexivity|]. rewrite lookup_obj_of_list. apply lookup_rev_nodup, Hnd.
+Qed.
